@@ -4,7 +4,7 @@ import TarpcModel.Lemmas.ClientMon
 
 Property theorems only.  The model is `TarpcModel.Client` (`Client/Model.lean`, `Client/Run.lean`); reachable
 states are `ops.foldl applyOp (initSys m bufCap tcap coupled)` for arbitrary op lists, the event trace is
-`trace (initSys …) ops`.  The invariant behind all statements is `Client.Inv` (`Lemmas/ClientInv.lean`).
+`trace (initSys …) ops`.  The invariant behind all statements is `Client.StInv` (`Lemmas/ClientInv.lean`).
 
 All statements hold for every configuration, including `m = 0` (then nothing ever enters the table); the hypothesis
 `1 ≤ m` of the task is not needed and therefore not assumed.
@@ -36,14 +36,16 @@ theorem C11_timers_len_eq_inflight (m bufCap tcap : Nat) (coupled : Bool) (ops :
 
 /-- **C11 (2b), every entry has its timer.**  After every op each in-flight entry's `timerKey` is the key of an
 armed timer (in the wheel or on the `expired` stack) whose value is the entry's request id, and that timer is not
-armed before the entry's deadline. -/
+armed before the entry's deadline — or, the armed timeout being clamped (`clampTimeout`), not before the clamp
+`clampNs`. -/
 theorem C11_entry_has_timer (m bufCap tcap : Nat) (coupled : Bool) (ops : List COp)
     (s : St) (hs : s = (ops.foldl applyOp (initSys m bufCap tcap coupled)).s) (en : Entry) (hen : en ∈ s.inflight) :
     ∃ d ∈ s.timers.entries ++ s.timers.expired,
-      d.key = en.timerKey ∧ d.val = en.id ∧ en.ctx.deadline ≤ d.whenMs * nsPerMs := by
+      d.key = en.timerKey ∧ d.val = en.id ∧
+      (en.ctx.deadline ≤ d.whenMs * nsPerMs ∨ (Gen.clientTimerClampSecs ≠ 0 ∧ clampNs ≤ d.whenMs * nsPerMs)) := by
   subst hs
   obtain ⟨w, ⟨d, hd, h1, h2, h3⟩, hw⟩ := (inv_reach m bufCap tcap coupled ops).t.e2t en hen
-  exact ⟨d, hd, h1, h2, by rw [h3]; exact hw⟩
+  exact ⟨d, hd, h1, h2, by rw [h3]; exact (dueAt_le_iff _ _).mp hw⟩
 
 /-- **C11 (2c), every timer has its entry.**  After every op each armed timer belongs to an in-flight entry
 (same key, value = the entry's request id): no timer is leaked. -/
@@ -123,8 +125,9 @@ range check of `DelayQueue::insert` (a deadline more than 2^36 ms ahead): no tra
 theorem C11_only_insert_range_panic (m bufCap tcap : Nat) (coupled : Bool) (ops : List COp) (t : TaskId)
     (site : String) (h : CEv.obs (.panic t site) ∈ trace (initSys m bufCap tcap coupled) ops) :
     site = "DelayQueue::insert: invalid deadline" := by
-  obtain ⟨calls, hg⟩ := trace_obs_good m ops (initSys m bufCap tcap coupled) (inv_init 0 m bufCap tcap coupled 0) rfl _ h
-  exact hg
+  obtain ⟨calls, now, -, hg⟩ :=
+    trace_obs_good m ops (initSys m bufCap tcap coupled) (inv_init 0 m bufCap tcap coupled 0) rfl _ h
+  exact hg.1
 
 theorem C11_no_uniqueness_panic (m bufCap tcap : Nat) (coupled : Bool) (ops : List COp) (t : TaskId) :
     CEv.obs (.panic t "Request IDs should be unique") ∉ trace (initSys m bufCap tcap coupled) ops ∧
@@ -148,9 +151,9 @@ def monC11Bounded (maxInFlight : Nat) (evs : List CEv) : Mon Unit := Mon.run (ch
 script the sub-monitor made of the first two clauses of `checkC11` accepts the model's trace. -/
 theorem C11_monitor_bounded_accepts (m bufCap tcap : Nat) (coupled : Bool) (ops : List COp) :
     (monC11Bounded m (trace (initSys m bufCap tcap coupled) ops)).ok = true := by
-  apply mon_accepts
+  apply mon_accepts (T := advSum ops) (hT := Nat.le_refl _)
   · intro bk st op; rfl
-  · intro c bk st o _ _ _ hg
+  · intro c bk st o _ _ _ _ hg
     cases o <;> try rfl
     rename_i ep i t
     cases ep <;> try rfl
